@@ -32,6 +32,8 @@ func runC10(c *Ctx) {
 	}
 	checkFileCounter(c, ev)
 	checkDocTotal(c)
+	checkAllAtOnceFileCounter(c)
+	checkProvenanceReads(c)
 	checkS2(c, ev)
 	ruleS3(c, "S3")
 	ruleS4(c, "S4")
@@ -384,5 +386,88 @@ func checkDocTotal(c *Ctx) {
 	})
 	if n == 0 {
 		r.Note("S1: EvaluateFiles has no zero-documents fallback test any more")
+	}
+}
+
+// checkAllAtOnceFileCounter: in allAtOnceEvaluator.EvaluateFiles the file
+// index handed to readDocuments is the loop-carried counter phi(0, counter+1):
+// every way round the loop over the file names adds exactly one.
+func checkAllAtOnceFileCounter(c *Ctx) {
+	r := c.R
+	fn := c.libFunc("allAtOnceEvaluator.EvaluateFiles")
+	if fn == nil {
+		r.Fatal("anchor missing: (*allAtOnceEvaluator).EvaluateFiles")
+		return
+	}
+	var rd *ssa.Call
+	eachInstr(fn, func(ins ssa.Instruction) {
+		if call, ok := ins.(*ssa.Call); ok && call.Call.StaticCallee() != nil && call.Call.StaticCallee().Name() == "readDocuments" {
+			rd = call
+		}
+	})
+	key := "allAtOnceEvaluator.EvaluateFiles/file-counter"
+	if rd == nil || len(rd.Call.Args) < 3 {
+		r.Fatal("anchor moved: no readDocuments(reader, filename, fileIndex, decoder) call in EvaluateFiles")
+		return
+	}
+	idx := rd.Call.Args[2]
+	phi, ok := idx.(*ssa.Phi)
+	if !ok {
+		r.Finding("S1", key, c.P.pos(rd.Pos()), fmt.Sprintf("the file index passed to readDocuments (%s) is not a loop-carried counter", exprOfValue(idx)))
+		return
+	}
+	for _, e := range phi.Edges {
+		if k, isK := constInt64(e); isK && k == 0 {
+			continue
+		}
+		if b, off := idxPlus(e); b == ssa.Value(phi) && off == 1 {
+			continue
+		}
+		r.Finding("S1", key, c.P.pos(rd.Pos()), fmt.Sprintf("the file index is not phi(0, index+1): one way round the loop over the file names carries %s, so some file is numbered like its predecessor (file_index and eval/eval-all agreement break after an empty file)", exprOfValue(e)))
+		return
+	}
+	r.Discharge("S1", key, c.P.pos(rd.Pos()), "file index = phi(0, index+1): every file, empty or not, takes one number")
+}
+
+// checkProvenanceReads: only document roots carry document / filename /
+// fileIndex; the accessors walk up to the root. Reading the field of an
+// arbitrary node directly yields the zero value below the root.
+func checkProvenanceReads(c *Ctx) {
+	r := c.R
+	allowed := map[string]bool{
+		"yqlib.CandidateNode.GetDocument": true, "yqlib.CandidateNode.GetFilename": true, "yqlib.CandidateNode.GetFileIndex": true,
+		"yqlib.CandidateNode.doCopy": true,
+	}
+	n := 0
+	for _, fn := range c.moduleFuncs() {
+		seen := map[string]int{}
+		eachInstr(fn, func(ins ssa.Instruction) {
+			u, ok := ins.(*ssa.UnOp)
+			if !ok || u.Op != token.MUL {
+				return
+			}
+			fa, ok := u.X.(*ssa.FieldAddr)
+			if !ok || structNameOfPtr(fa.X.Type()) != "CandidateNode" {
+				return
+			}
+			f := fieldName(fa)
+			if f != "document" && f != "filename" && f != "fileIndex" {
+				return
+			}
+			n++
+			key := fmt.Sprintf("%s/read(%s)", funcKey(fn), f)
+			seen[key]++
+			if seen[key] > 1 {
+				key = fmt.Sprintf("%s#%d", key, seen[key])
+			}
+			if allowed[funcKey(fn)] {
+				r.Discharge("S1", key, c.P.pos(u.Pos()), "accessor / copy")
+			} else {
+				r.Finding("S1", key, c.P.pos(u.Pos()), fmt.Sprintf("reads the node's own %s field; only document roots carry it (the accessor walks up to the root), so below the root this is the zero value: a result built here is stamped as document/file 0", f))
+			}
+		})
+	}
+	if n < 6 {
+		r.Fatal("anchor moved: fewer than 6 reads of the provenance fields found (%d)", n)
 	}
 }
